@@ -32,6 +32,7 @@ class Ctx:
         self.known = [k for k in load_known() if k.get("property") == prop]
         self.analysed_fns = set()
         self.witness = None
+        self.regress = None
 
     # ---- program databases
     @property
@@ -224,6 +225,8 @@ class Ctx:
         }
         if self.witness is not None:
             ev["coverage"]["witness"] = self.witness
+        if self.regress is not None:
+            ev["coverage"]["stored_changes"] = self.regress
         if scratch:
             import shutil
             shutil.rmtree(os.path.dirname(rdir), ignore_errors=True)
